@@ -66,6 +66,11 @@ SHORT = {
         "                return (x, y, w, __class__)\n        def n(self):\n            return [x + q for q in (y, z)]\n    return A\n"
         "print(f(1, 2, 3).B().m()[:3])\n"
     ),
+    "multi_destructure": "a, b = 1, 2\nc, d = b, a\n(e, f), g = (c, d), a\nh, (i, (j, k)) = a, (b, (c, d))\n[l, *m] = [a, b, c]\nprint(a, b, c, d, e, f, g, h, i, j, k, l, m)\n",
+    "multi_from_import": "from os import sep\nfrom os import path\nfrom os.path import join\nfrom sys import maxsize as ms\nprint(sep, ms > 0)\n",
+    "multi_aug_attr": "class O:\n    a = 1\n    b = [1]\no = O()\no.a += 1\no.a -= 2\no.b += [2]\no.b[0] += 5\no.b[1] *= 2\nprint(o.a, o.b)\n",
+    "sibling_classes": "class A:\n    x = 1\nclass B:\n    x = 2\nclass C(A, B):\n    y = 3\nclass D(C):\n    pass\nprint(D.x, D.y)\n",
+    "sibling_loops": "for i in range(2):\n    if i:\n        break\nfor j in range(2):\n    if j:\n        break\nk = 0\nwhile k < 2:\n    k += 1\n    if k:\n        break\nwhile k < 4:\n    k += 1\n    if k == 3:\n        continue\nprint(i, j, k)\n",
     "global_decl": "g = 0\ndef f():\n    global g\n    g += 1\n    return g\nf()\nprint(g)\n",
     # --- classes -------------------------------------------------------------------
     "class_super": (
